@@ -312,6 +312,8 @@ def compare(prop, lines, vh, seedinfo):
     fails = []
     stats = dict(go_only=len(lines) - len(midx), compared=len(midx), go_panic=0, go_err=0, go_ok=0)
     spec_ops = tuple(prop.get("spec_ops", ()))
+    info_ops = tuple(prop.get("info_ops", ()))   # compared and counted, never a failure (facts outside the property)
+    stats["info_mismatch"] = {}
     for k, l in enumerate(lines):
         g = go_out[k] if k < len(go_out) else "fatal missing"
         op = l.split(" ", 1)[0]
@@ -329,6 +331,8 @@ def compare(prop, lines, vh, seedinfo):
         m = model.get(k, "fatal missing")
         if m == "bad-op":
             fails.append(dict(kind="model:bad-op:" + op, line=l, go=g, model=m, cls="machinery"))
+        elif g != m and info_ops and op.startswith(info_ops):
+            stats["info_mismatch"].setdefault(op, []).append(l[:160])
         elif g != m:
             c = "spec" if op.startswith(spec_ops) and spec_ops else "corr"
             fails.append(dict(kind=f"{c}:{op}", line=l, go=g, model=m, cls=c))
@@ -539,6 +543,7 @@ def main():
         lines_compared_with_model=stats.get("compared", 0), direct_oracle_lines=stats.get("go_only", 0),
         go_outcomes=dict(ok=stats.get("go_ok", 0), err=stats.get("go_err", 0), panic=stats.get("go_panic", 0)),
         distribution=meta.get("distribution", {}), per_op=meta.get("per_op", {}),
+        informational_mismatches={k: dict(count=len(v), examples=v[:6]) for k, v in (stats.get("info_mismatch") or {}).items()},
         partial=prop.get("partial", []), known_findings_hit=[k[1] for k, n in known_hits],
         notes=notes, build_s=pr.get("build_s"),
     )
